@@ -187,6 +187,15 @@ func (c *Ctx) aliasMovedFuncs() {
 					cands = append(cands, k)
 				}
 			}
+			if len(cands) == 0 {
+				// inlined into the only function that called it (mergeTwo into merge): the caller now holds its body, the
+				// rules about the helper read it there
+				if into, ok := pinnedSoleCaller[key]; ok {
+					if _, there := c.byName[into]; there {
+						cands = []string{into}
+					}
+				}
+			}
 			if len(cands) != 1 {
 				continue
 			}
@@ -202,6 +211,17 @@ func (c *Ctx) aliasMovedFuncs() {
 			c.movedFuncs = append(c.movedFuncs, key+" <- "+src)
 		}
 	}
+}
+
+// pinnedSoleCaller: unexported helpers of the pinned tree that are called from one function only (confirmed by reading); when
+// such a helper has disappeared its body is looked for in that caller.
+var pinnedSoleCaller = map[string]string{
+	"container/tree.btree.mergeTwo":        "container/tree.btree.merge",
+	"container/tree.btree.insertIntoLeaf":  "container/tree.btree.Put",
+	"container/tree.btree.removeRightmost": "container/tree.btree.Delete",
+	"container/tree.btree.overfill":        "container/tree.btree.Put",
+	"container/tree.btree.rotateLeft":      "container/tree.btree.steal",
+	"container/tree.btree.rotateRight":     "container/tree.btree.steal",
 }
 
 func recvTypeName(e ast.Expr) string {
